@@ -196,7 +196,7 @@ Proof.
   destruct (need_cols_range cols Hc) as (C1 & C8 & Clt).
   exists (le_bytes (N.to_nat (need_rows rows)) rows ++ le_bytes (N.to_nat (need_cols cols)) cols).
   split.
-  { unfold pair_encode. rewrite Fr, Fc. unfold ext_put_fixed.
+  { unfold pair_encode. rewrite Fr, Fc. unfold dim_ext_put_fixed.
     replace ((1 <=? need_cols cols) && (need_cols cols <=? 8)) with true by lia.
     destruct (N.eqb_spec (need_rows rows) 0) as [E|E].
     - rewrite E. reflexivity.
@@ -206,7 +206,7 @@ Proof.
   { unfold pair_byte_length. rewrite Fr, Fc, app_length, !length_le_bytes. lia. }
   split.
   { unfold pair_byte_length. rewrite Fr, Fc. reflexivity. }
-  intro tail. unfold pair_decode. rewrite Fr, Fc. unfold ext_get.
+  intro tail. unfold pair_decode. rewrite Fr, Fc. unfold dim_ext_get.
   replace ((1 <=? need_cols cols) && (need_cols cols <=? 8)) with true by lia.
   set (br := le_bytes (N.to_nat (need_rows rows)) rows).
   set (bc := le_bytes (N.to_nat (need_cols cols)) cols).
